@@ -1,4 +1,581 @@
 /-
-C10 — placeholder (theorems follow)
+C10 — Tree decompositions are valid; exact methods are optimal.
+Theorems about `Fggs.TD` (FggsModel/TreeDec.lean).
 -/
 import FggsModel.TreeDec
+import Mathlib.Tactic.Linarith
+import Mathlib.Data.List.Basic
+import Mathlib.Data.List.Nodup
+import Mathlib.Data.List.Perm.Basic
+import Mathlib.Data.List.Perm.Subperm
+
+set_option linter.unusedSimpArgs false
+set_option linter.unusedVariables false
+
+namespace C10
+open Fggs Fggs.TD
+
+private theorem foldl_inv {α β : Type} (I : β → Prop) (f : β → α → β) (l : List α) (b : β)
+    (hb : I b) (hf : ∀ b, I b → ∀ a ∈ l, I (f b a)) : I (l.foldl f b) := by
+  induction l generalizing b with
+  | nil => exact hb
+  | cons x xs ih =>
+    simp only [List.foldl_cons]
+    exact ih _ (hf b hb x (by simp)) (fun b' hb' a ha => hf b' hb' a (by simp [ha]))
+
+private theorem verts_addEdge (g : UG) (u v : Nat) : verts (addEdge g u v) = verts g := by
+  unfold verts addEdge
+  rw [List.map_map]
+  apply List.map_congr_left
+  intro p _
+  simp only [Function.comp]
+  split_ifs <;> rfl
+
+private theorem verts_makeClique (g : UG) (ns : List Nat) : verts (makeClique g ns) = verts g := by
+  unfold makeClique
+  refine foldl_inv (fun g' => verts g' = verts g) _ _ _ rfl ?_
+  intro g1 h1 a _
+  refine foldl_inv (fun g' => verts g' = verts g) _ _ _ h1 ?_
+  intro g2 h2 b _
+  split_ifs
+  · rw [verts_addEdge]; exact h2
+  · exact h2
+
+private theorem verts_removeNode (g : UG) (v : Nat) : verts (removeNode g v) = (verts g).filter (· != v) := by
+  unfold verts removeNode
+  rw [List.map_map, List.filter_map]
+  rfl
+
+/-- eliminating a vertex removes exactly that key -/
+theorem verts_eliminate (g : UG) (v : Nat) : verts (eliminate g v) = (verts g).filter (· != v) := by
+  unfold eliminate
+  rw [verts_removeNode, verts_makeClique]
+/-- adjacency in a tree of bags -/
+def TAdj (t : Tree) (a b : List Nat) : Prop := b ∈ (t.lookup a).getD []
+
+/-- connected by a path all of whose bags satisfy `P` -/
+inductive PathIn (t : Tree) (P : List Nat → Prop) : List Nat → List Nat → Prop
+  | refl (a : List Nat) : P a → PathIn t P a a
+  | step {a b c : List Nat} : PathIn t P a b → TAdj t b c → P c → PathIn t P a c
+
+private theorem PathIn.right {t : Tree} {P : List Nat → Prop} {a b : List Nat}
+    (h : PathIn t P a b) : P b := by
+  cases h <;> assumption
+
+private theorem PathIn.trans {t : Tree} {P : List Nat → Prop} {a b c : List Nat}
+    (h1 : PathIn t P a b) (h2 : PathIn t P b c) : PathIn t P a c := by
+  induction h2 with
+  | refl _ => exact h1
+  | step _ hadj hp ih => exact PathIn.step ih hadj hp
+
+private theorem PathIn.symm {t : Tree} {P : List Nat → Prop} {a b : List Nat}
+    (hs : ∀ a b, P a → TAdj t a b → TAdj t b a) (h : PathIn t P a b) : PathIn t P b a := by
+  induction h with
+  | refl hp => exact .refl _ hp
+  | step hab hadj hp ih =>
+    exact PathIn.trans (PathIn.step (.refl _ hp) (hs _ _ hab.right hadj) hab.right) ih
+
+private theorem PathIn.mono {t : Tree} {P Q : List Nat → Prop} {a b : List Nat}
+    (hpq : ∀ c, P c → Q c) (h : PathIn t P a b) : PathIn t Q a b := by
+  induction h with
+  | refl hp => exact .refl _ (hpq _ hp)
+  | step hab hadj hp ih => exact .step ih hadj (hpq _ hp)
+
+private theorem reach_inv (t : Tree) (allowed : List (List Nat)) (start : List Nat)
+    (hs : start ∈ allowed) :
+    (reachBags t allowed start).Nodup ∧
+      ∀ c ∈ reachBags t allowed start, PathIn t (fun c => c ∈ allowed) start c := by
+  unfold reachBags
+  refine foldl_inv (fun (seen : List (List Nat)) => seen.Nodup ∧ ∀ c ∈ seen, PathIn t (fun c => c ∈ allowed) start c)
+    _ _ _ ⟨by simp, by intro c hc; simp only [List.mem_singleton] at hc; subst hc; exact PathIn.refl _ hs⟩ ?_
+  intro seen hseen _ _
+  refine foldl_inv (fun (seen : List (List Nat)) => seen.Nodup ∧ ∀ c ∈ seen, PathIn t (fun c => c ∈ allowed) start c)
+    _ _ _ hseen ?_
+  intro acc hacc b hb
+  refine foldl_inv (fun (seen : List (List Nat)) => seen.Nodup ∧ ∀ c ∈ seen, PathIn t (fun c => c ∈ allowed) start c)
+    _ _ _ hacc ?_
+  intro acc2 hacc2 c hc
+  split_ifs with hcond
+  · simp only [Bool.and_eq_true, List.contains_iff_mem, Bool.not_eq_true', ← Bool.not_eq_true] at hcond
+    refine ⟨?_, ?_⟩
+    · exact List.Nodup.append hacc2.1 (by simp) (by simpa using hcond.2)
+    · intro x hx
+      rcases List.mem_append.1 hx with hx | hx
+      · exact hacc2.2 x hx
+      · simp only [List.mem_singleton] at hx
+        subst hx
+        exact PathIn.step (hseen.2 b hb) hc hcond.1
+  · exact hacc2
+
+private theorem reach_all (t : Tree) (allowed : List (List Nat)) (start : List Nat)
+    (hs : start ∈ allowed) (hn : allowed.Nodup)
+    (hl : (reachBags t allowed start).length = allowed.length) :
+    ∀ c ∈ allowed, PathIn t (fun c => c ∈ allowed) start c := by
+  obtain ⟨hnd, hp⟩ := reach_inv t allowed start hs
+  have hsub : reachBags t allowed start ⊆ allowed := fun c hc => (hp c hc).right
+  have hperm := (List.subperm_of_subset hnd hsub).perm_of_length_le (le_of_eq hl.symm)
+  intro c hc
+  exact hp c (hperm.mem_iff.2 hc)
+/-- the contract of a tree decomposition -/
+structure ValidTD (g : UG) (t : Tree) : Prop where
+  nonempty : t ≠ []
+  /-- adjacency is symmetric, irreflexive and stays inside the tree -/
+  symm : ∀ a b, TAdj t a b → a ∈ t.map (·.1) → (b ∈ t.map (·.1) ∧ TAdj t b a ∧ a ≠ b)
+  /-- connected -/
+  connected : ∀ a ∈ t.map (·.1), ∀ b ∈ t.map (·.1), PathIn t (fun c => c ∈ t.map (·.1)) a b
+  /-- |E| = |V| - 1 (with connectedness: acyclic) -/
+  edgeCount : (t.map (fun p => p.2.length)).foldl (· + ·) 0 = 2 * (t.length - 1)
+  /-- every vertex is covered by some bag, and bags hold vertices only -/
+  coverV : ∀ v ∈ verts g, ∃ b ∈ t.map (·.1), v ∈ b
+  onlyV : ∀ b ∈ t.map (·.1), ∀ v ∈ b, v ∈ verts g
+  /-- every edge is covered by some bag -/
+  coverE : ∀ p ∈ g, ∀ w ∈ p.2, ∃ b ∈ t.map (·.1), p.1 ∈ b ∧ w ∈ b
+  /-- running intersection: the bags containing a vertex form a connected subtree -/
+  running : ∀ v ∈ verts g, ∀ a ∈ t.map (·.1), ∀ b ∈ t.map (·.1), v ∈ a → v ∈ b →
+      PathIn t (fun c => c ∈ t.map (·.1) ∧ v ∈ c) a b
+
+private theorem lookup_of_mem_keys (t : Tree) (a : List Nat) (ha : a ∈ t.map (·.1)) :
+    ∃ p ∈ t, p.1 = a ∧ t.lookup a = some p.2 := by
+  induction t with
+  | nil => simp at ha
+  | cons q t ih =>
+    obtain ⟨k, v⟩ := q
+    by_cases hk : a = k
+    · subst hk; exact ⟨(a, v), by simp, rfl, by simp [List.lookup]⟩
+    · have : a ∈ t.map (·.1) := by simpa [hk] using ha
+      obtain ⟨p, hp, h1, h2⟩ := ih this
+      refine ⟨p, by simp [hp], h1, ?_⟩
+      have hb : (a == k) = false := by simp [hk]
+      simp [List.lookup, hb, h2]
+
+/-- **the executable decider that the harness runs on every decomposition the library returns is sound** -/
+theorem validTD_sound (g : UG) (t : Tree) (h : validTD g t = true) : ValidTD g t := by
+  simp only [validTD, Bool.and_eq_true, List.all_eq_true, List.contains_iff_mem, beq_iff_eq,
+    List.mem_range, Bool.or_eq_true, bne_iff_ne, ne_eq, List.any_eq_true, Bool.not_eq_true',
+    List.isEmpty_eq_false_iff] at h
+  obtain ⟨⟨⟨⟨⟨⟨⟨⟨h1, h2⟩, h3⟩, h4⟩, h5⟩, h6⟩, h7⟩, h8⟩, h9⟩ := h
+  set bags := t.map (·.1) with hbags
+  have hnd : bags.Nodup := by
+    rw [List.nodup_iff_getElem?_ne_getElem?]
+    intro i j hij hj
+    have hi : i < bags.length := lt_trans hij hj
+    rcases h3 i hi j hj with h | h
+    · omega
+    · rw [getElem!_pos bags i hi, getElem!_pos bags j hj] at h
+      rw [List.getElem?_eq_getElem hi, List.getElem?_eq_getElem hj]
+      intro heq
+      exact h (Option.some.inj heq)
+  have hsymm : ∀ a b, TAdj t a b → a ∈ bags → (b ∈ bags ∧ TAdj t b a ∧ a ≠ b) := by
+    intro a b hab ha
+    obtain ⟨p, hp, hpa, hl⟩ := lookup_of_mem_keys t a ha
+    unfold TAdj at hab
+    rw [hl] at hab
+    simp only [Option.getD_some] at hab
+    obtain ⟨⟨hb1, hb2⟩, hb3⟩ := h2 p hp b hab
+    rw [hpa] at hb2 hb3
+    exact ⟨hb1, hb2, fun h => hb3 h.symm⟩
+  refine ⟨?_, hsymm, ?_, ?_, h7, h6, h8, ?_⟩
+  · intro ht; apply h1; rw [hbags, ht]; rfl
+  · -- connected
+    obtain ⟨b0, rest, hb0⟩ := List.exists_cons_of_ne_nil h1
+    have hhead : bags.headD [] = b0 := by rw [hb0]; rfl
+    rw [hhead] at h4
+    have hb0m : b0 ∈ bags := by rw [hb0]; simp
+    have hall := reach_all t bags b0 hb0m hnd h4
+    intro a ha b hb
+    have hs : ∀ a b, a ∈ bags → TAdj t a b → TAdj t b a := fun a b ha hab => (hsymm a b hab ha).2.1
+    exact PathIn.trans (PathIn.symm hs (hall a ha)) (hall b hb)
+  · rw [h5, hbags, List.length_map]
+  · -- running
+    intro v hv a ha b hb hva hvb
+    have h := h9 v hv
+    have hmem : ∀ c, c ∈ bags.filter (fun x => x.contains v) ↔ (c ∈ bags ∧ v ∈ c) := by
+      intro c; rw [List.mem_filter, List.contains_iff_mem]
+    have hbsnd : (bags.filter (fun x => x.contains v)).Nodup := hnd.filter _
+    rcases hbs' : bags.filter (fun x => x.contains v) with _ | ⟨b0, rest⟩
+    · rw [hbs'] at h; simp at h
+    · rw [hbs'] at h hmem hbsnd
+      simp only [beq_iff_eq] at h
+      have hb0m : b0 ∈ b0 :: rest := by simp
+      have hall := reach_all t (b0 :: rest) b0 hb0m hbsnd h
+      have hs : ∀ a b, a ∈ b0 :: rest → TAdj t a b → TAdj t b a :=
+        fun a b ha hab => (hsymm a b hab ((hmem a).1 ha).1).2.1
+      have hpath := PathIn.trans (PathIn.symm hs (hall a ((hmem a).2 ⟨ha, hva⟩)))
+        (hall b ((hmem b).2 ⟨hb, hvb⟩))
+      exact PathIn.mono (fun c hc => (hmem c).1 hc) hpath
+/-- a graph as the library holds it: keys are distinct -/
+def KeysNodup (g : UG) : Prop := (verts g).Nodup
+
+private theorem foldl_opt_some (F : Option Nat → Nat → Option Nat)
+    (hF : ∀ best k, ∃ u, F best k = some u ∧ (u = k ∨ best = some u)) (l : List Nat) (b : Nat) :
+    ∃ u, l.foldl F (some b) = some u := by
+  induction l generalizing b with
+  | nil => exact ⟨b, rfl⟩
+  | cons k l ih =>
+    simp only [List.foldl_cons]
+    obtain ⟨u, hu, _⟩ := hF (some b) k
+    rw [hu]; exact ih u
+
+private theorem foldl_opt_none (F : Option Nat → Nat → Option Nat)
+    (hF : ∀ best k, ∃ u, F best k = some u ∧ (u = k ∨ best = some u)) (ks : List Nat)
+    (h : ks.foldl F none = none) : ks = [] := by
+  cases ks with
+  | nil => rfl
+  | cons k l =>
+    simp only [List.foldl_cons] at h
+    obtain ⟨u0, hu0, _⟩ := hF none k
+    rw [hu0] at h
+    obtain ⟨u, hu⟩ := foldl_opt_some F hF l u0
+    rw [hu] at h
+    cases h
+
+private theorem foldl_opt_mem (F : Option Nat → Nat → Option Nat)
+    (hF : ∀ best k, ∃ u, F best k = some u ∧ (u = k ∨ best = some u)) (ks : List Nat) (u : Nat)
+    (h : ks.foldl F none = some u) : u ∈ ks := by
+  have := foldl_inv (fun (best : Option Nat) => ∀ u, best = some u → u ∈ ks) F ks none
+    (by intro u hu; cases hu) (by
+      intro best hbest k hk u hu
+      obtain ⟨u', hu', hor⟩ := hF best k
+      rw [hu'] at hu
+      simp only [Option.some.injEq] at hu
+      subst hu
+      rcases hor with h | h
+      · subst h; exact hk
+      · exact hbest _ h)
+  exact this u h
+
+private theorem argminFirst_none (ks : List Nat) (f : Nat → Nat) (h : argminFirst ks f = none) :
+    ks = [] := by
+  unfold argminFirst at h
+  exact foldl_opt_none _ (fun best k => by
+    cases best with
+    | none => exact ⟨k, rfl, Or.inl rfl⟩
+    | some b =>
+      by_cases hlt : f k < f b
+      · exact ⟨k, by simp [hlt], Or.inl rfl⟩
+      · exact ⟨b, by simp [hlt], Or.inr rfl⟩) ks h
+
+private theorem argminFirst_mem (ks : List Nat) (f : Nat → Nat) (u : Nat)
+    (h : argminFirst ks f = some u) : u ∈ ks := by
+  unfold argminFirst at h
+  exact foldl_opt_mem _ (fun best k => by
+    cases best with
+    | none => exact ⟨k, rfl, Or.inl rfl⟩
+    | some b =>
+      by_cases hlt : f k < f b
+      · exact ⟨k, by simp [hlt], Or.inl rfl⟩
+      · exact ⟨b, by simp [hlt], Or.inr rfl⟩) ks u h
+
+private theorem length_eq_verts (g : UG) : g.length = (verts g).length := by
+  simp [verts]
+
+private theorem keysNodup_eliminate (g : UG) (u : Nat) (hk : KeysNodup g) :
+    KeysNodup (eliminate g u) := by
+  unfold KeysNodup
+  rw [verts_eliminate]
+  exact hk.filter _
+
+private theorem verts_eliminate_erase (g : UG) (u : Nat) (hk : KeysNodup g) :
+    verts (eliminate g u) = (verts g).erase u := by
+  rw [verts_eliminate, hk.erase_eq_filter]
+
+private theorem length_eliminate (g : UG) (u : Nat) (hk : KeysNodup g) (hu : u ∈ verts g) :
+    (eliminate g u).length + 1 = g.length := by
+  rw [length_eq_verts, verts_eliminate_erase g u hk, List.length_erase_of_mem hu, length_eq_verts]
+  have : 0 < (verts g).length := List.length_pos_of_mem hu
+  omega
+
+private theorem perm_cons_eliminate (g : UG) (u : Nat) (hk : KeysNodup g) (hu : u ∈ verts g) :
+    (u :: verts (eliminate g u)).Perm (verts g) := by
+  rw [verts_eliminate_erase g u hk]
+  exact (List.perm_cons_erase hu).symm
+
+private theorem go_perm (fuel : Nat) : ∀ (g : UG) (d : Nat) (ord : List Nat), KeysNodup g →
+    g.length = fuel → (minFill.go fuel g d ord).2.Perm (ord ++ verts g) := by
+  induction fuel with
+  | zero =>
+    intro g d ord hk hl
+    have : g = [] := List.length_eq_zero_iff.1 hl
+    subst this
+    simp [minFill.go, verts]
+  | succ fuel ih =>
+    intro g d ord hk hl
+    unfold minFill.go
+    split
+    · rename_i hnone
+      have := argminFirst_none _ _ hnone
+      rw [this]; simp
+    · rename_i u hsome
+      have hu := argminFirst_mem _ _ _ hsome
+      have hlen := length_eliminate g u hk hu
+      refine (ih (eliminate g u) _ (ord ++ [u]) (keysNodup_eliminate g u hk) (by omega)).trans ?_
+      rw [List.append_assoc]
+      exact List.Perm.append_left _ (perm_cons_eliminate g u hk hu)
+
+/-- **min_fill returns an elimination order: a permutation of the vertices** -/
+theorem minFill_perm (g : UG) (hk : KeysNodup g) : (minFill g).2.Perm (verts g) := by
+  have := go_perm g.length g 0 [] hk rfl
+  simpa [minFill] using this
+
+private theorem go_width (fuel : Nat) : ∀ (g : UG) (d : Nat) (ord : List Nat),
+    ∃ suf, (minFill.go fuel g d ord).2 = ord ++ suf ∧
+      (minFill.go fuel g d ord).1 = max d (elimWidth g suf) := by
+  induction fuel with
+  | zero =>
+    intro g d ord
+    exact ⟨[], by simp [minFill.go], by simp [minFill.go, elimWidth]⟩
+  | succ fuel ih =>
+    intro g d ord
+    unfold minFill.go
+    split
+    · exact ⟨[], by simp, by simp [elimWidth]⟩
+    · rename_i u hsome
+      obtain ⟨suf, h1, h2⟩ := ih (eliminate g u) (max d (nbrs g u).length) (ord ++ [u])
+      refine ⟨u :: suf, ?_, ?_⟩
+      · rw [h1]; simp
+      · rw [h2]; simp only [elimWidth]; rw [max_assoc]
+
+/-- the width min_fill reports is the width of the elimination game along the order it returns -/
+theorem minFill_reports_width (g : UG) (hk : KeysNodup g) : (minFill g).1 = elimWidth g (minFill g).2 := by
+  obtain ⟨suf, h1, h2⟩ := go_width g.length g 0 []
+  unfold minFill
+  simp only [List.nil_append] at h1
+  rw [h2, h1]; simp
+private theorem foldl_min_le (F : Nat → Nat → Nat) (hF : ∀ acc v, F acc v ≤ acc) (l : List Nat)
+    (acc : Nat) : l.foldl F acc ≤ acc := by
+  induction l generalizing acc with
+  | nil => exact le_refl _
+  | cons w l ih => exact le_trans (ih _) (hF _ _)
+
+private theorem foldl_min_le_mem (F : Nat → Nat → Nat) (hF : ∀ acc v, F acc v ≤ acc) (l : List Nat)
+    (acc : Nat) (v : Nat) (hv : v ∈ l) (x : Nat) (hx : ∀ acc, F acc v ≤ x) : l.foldl F acc ≤ x := by
+  induction l generalizing acc with
+  | nil => cases hv
+  | cons w l ih =>
+    simp only [List.foldl_cons]
+    rcases List.mem_cons.1 hv with h | h
+    · subst h
+      exact le_trans (foldl_min_le F hF l _) (hx _)
+    · exact ih _ h
+
+private theorem twAux_le (fuel : Nat) : ∀ (g : UG) (cur best : Nat), KeysNodup g →
+    ∀ order : List Nat, order.Perm (verts g) →
+      twAux fuel g cur best ≤ max cur (elimWidth g order) := by
+  induction fuel with
+  | zero => intro g cur best hk order hp; simp [twAux]
+  | succ fuel ih =>
+    intro g cur best hk order hp
+    unfold twAux
+    split_ifs with he hcb
+    · exact le_max_left _ _
+    · exact le_trans hcb (le_max_left _ _)
+    · cases order with
+      | nil =>
+        have : verts g = [] := hp.symm.eq_nil
+        have : g = [] := by simpa [verts] using this
+        simp [this] at he
+      | cons v order' =>
+        have hv : v ∈ verts g := hp.subset (by simp)
+        have hp' : order'.Perm (verts (eliminate g v)) := by
+          rw [verts_eliminate_erase g v hk]
+          exact (hp.trans (List.perm_cons_erase hv)).cons_inv
+        apply foldl_min_le_mem _ _ _ _ v hv
+        · intro acc
+          simp only [elimWidth]
+          split_ifs with hc
+          · refine le_trans hc ?_
+            exact max_le (le_max_left _ _) (le_trans (le_max_left _ _) (le_max_right _ _))
+          · refine le_trans (min_le_right _ _) ?_
+            refine le_trans (ih (eliminate g v) _ acc (keysNodup_eliminate g v hk) order' hp') ?_
+            rw [max_assoc]
+        · intro acc w
+          simp only
+          split_ifs
+          · exact le_refl _
+          · exact min_le_left _ _
+
+private theorem twAux_attained (fuel : Nat) : ∀ (g : UG) (cur best : Nat), KeysNodup g →
+    g.length ≤ fuel →
+      twAux fuel g cur best = best ∨
+        ∃ order : List Nat, order.Perm (verts g) ∧ max cur (elimWidth g order) = twAux fuel g cur best := by
+  induction fuel with
+  | zero =>
+    intro g cur best hk hl
+    have : g = [] := List.length_eq_zero_iff.1 (by omega)
+    subst this
+    exact Or.inr ⟨[], by simp [verts], by simp [twAux, elimWidth]⟩
+  | succ fuel ih =>
+    intro g cur best hk hl
+    unfold twAux
+    split_ifs with he hcb
+    · have : g = [] := by simpa using he
+      subst this
+      exact Or.inr ⟨[], by simp [verts], by simp [elimWidth]⟩
+    · exact Or.inl rfl
+    · refine foldl_inv (fun acc => acc = best ∨
+        ∃ order : List Nat, order.Perm (verts g) ∧ max cur (elimWidth g order) = acc) _ _ _
+        (Or.inl rfl) ?_
+      intro acc hacc v hv
+      simp only
+      split_ifs with hc
+      · exact hacc
+      · have hlen := length_eliminate g v hk hv
+        rcases ih (eliminate g v) (max cur (nbrs g v).length) acc (keysNodup_eliminate g v hk)
+          (by omega) with h | ⟨order', hp', hw⟩
+        · rw [h, min_self]; exact hacc
+        · rcases min_choice acc (twAux fuel (eliminate g v) (max cur (nbrs g v).length) acc) with h | h
+          · rw [h]; exact hacc
+          · rw [h]
+            refine Or.inr ⟨v :: order', ?_, ?_⟩
+            · exact (List.Perm.cons v hp').trans (perm_cons_eliminate g v hk hv)
+            · rw [← hw]; simp only [elimWidth]; rw [max_assoc]
+
+/-- **the treewidth computed by `tw` is a lower bound for the width of every elimination order** … -/
+theorem tw_le_elimWidth (g : UG) (hk : KeysNodup g) (order : List Nat) (hp : order.Perm (verts g)) :
+    tw g ≤ elimWidth g order := by
+  unfold tw
+  split_ifs with he
+  · exact Nat.zero_le _
+  · simpa using twAux_le g.length g 0 g.length hk order hp
+
+/- … **and is attained by some elimination order** — ORIGINAL STATEMENT, FALSE of the model:
+
+  theorem tw_attained (g : UG) (hk : KeysNodup g) :
+      ∃ order : List Nat, order.Perm (verts g) ∧ elimWidth g order = tw g
+
+Counterexample: `g = [(0,[1,2])]` (a neighbour list that mentions non-keys): `tw g = 1` (the initial
+bound `g.length` is returned because the only branch is pruned), but the only order `[0]` has
+`elimWidth g [0] = 2`.  `tw g ≤ g.length` always, so the statement holds exactly when some order has
+width `≤ g.length`; that is the extra hypothesis `hbound` below (necessary and sufficient). It is
+discharged for every graph with duplicate-free neighbour lists over the keys in `tw_attained_wf`. -/
+
+/-- … **and is attained by some elimination order**, provided some order stays within the initial
+bound `g.length` of the branch-and-bound search -/
+theorem tw_attained_partial (g : UG) (hk : KeysNodup g)
+    (hbound : ∃ order : List Nat, order.Perm (verts g) ∧ elimWidth g order ≤ g.length) :
+    ∃ order : List Nat, order.Perm (verts g) ∧ elimWidth g order = tw g := by
+  by_cases he : g.isEmpty = true
+  · have : g = [] := by simpa using he
+    subst this
+    exact ⟨[], by simp [verts], by simp [tw, elimWidth]⟩
+  · have htw : tw g = twAux g.length g 0 g.length := by simp [tw, he]
+    rcases twAux_attained g.length g 0 g.length hk (le_refl _) with h | ⟨order, hp, hw⟩
+    · obtain ⟨order, hp, hw⟩ := hbound
+      refine ⟨order, hp, le_antisymm ?_ (tw_le_elimWidth g hk order hp)⟩
+      rw [htw, h]; exact hw
+    · exact ⟨order, hp, by rw [htw, ← hw]; simp⟩
+/-- neighbour lists are duplicate-free and mention keys only -/
+def NbrsWF (g : UG) : Prop := ∀ p ∈ g, p.2.Nodup ∧ ∀ w ∈ p.2, w ∈ verts g
+
+private theorem mem_insertU (l : List Nat) (x w : Nat) (h : w ∈ insertU l x) : w ∈ l ∨ w = x := by
+  unfold insertU at h
+  split_ifs at h
+  · exact Or.inl h
+  · simpa using h
+
+private theorem nodup_insertU (l : List Nat) (x : Nat) (h : l.Nodup) : (insertU l x).Nodup := by
+  unfold insertU
+  split_ifs with hc
+  · exact h
+  · exact List.Nodup.append h (by simp) (by simpa using hc)
+
+private theorem nbrsWF_addEdge (g : UG) (u v : Nat) (hg : NbrsWF g) (hu : u ∈ verts g)
+    (hv : v ∈ verts g) : NbrsWF (addEdge g u v) := by
+  intro p' hp'
+  rw [verts_addEdge]
+  unfold addEdge at hp'
+  obtain ⟨p, hp, rfl⟩ := List.mem_map.1 hp'
+  obtain ⟨hn, hm⟩ := hg p hp
+  split_ifs
+  · exact ⟨nodup_insertU _ _ hn, fun w hw => by
+      rcases mem_insertU _ _ _ hw with h | h
+      · exact hm w h
+      · rw [h]; exact hv⟩
+  · exact ⟨nodup_insertU _ _ hn, fun w hw => by
+      rcases mem_insertU _ _ _ hw with h | h
+      · exact hm w h
+      · rw [h]; exact hu⟩
+  · exact ⟨hn, hm⟩
+
+private theorem nbrsWF_makeClique (g : UG) (ns : List Nat) (hg : NbrsWF g)
+    (hns : ∀ a ∈ ns, a ∈ verts g) : NbrsWF (makeClique g ns) := by
+  unfold makeClique
+  refine (foldl_inv (fun g' => NbrsWF g' ∧ verts g' = verts g) _ _ _ ⟨hg, rfl⟩ ?_).1
+  intro g1 h1 a ha
+  refine foldl_inv (fun g' => NbrsWF g' ∧ verts g' = verts g) _ _ _ h1 ?_
+  intro g2 h2 b hb
+  split_ifs
+  · exact ⟨nbrsWF_addEdge g2 a b h2.1 (by rw [h2.2]; exact hns a ha) (by rw [h2.2]; exact hns b hb),
+      by rw [verts_addEdge]; exact h2.2⟩
+  · exact h2
+
+private theorem nbrsWF_removeNode (g : UG) (v : Nat) (hg : NbrsWF g) : NbrsWF (removeNode g v) := by
+  intro p' hp'
+  rw [verts_removeNode]
+  unfold removeNode at hp'
+  obtain ⟨p, hp, rfl⟩ := List.mem_map.1 hp'
+  obtain ⟨hn, hm⟩ := hg p (List.mem_filter.1 hp).1
+  refine ⟨hn.filter _, fun w hw => ?_⟩
+  obtain ⟨hw1, hw2⟩ := List.mem_filter.1 hw
+  exact List.mem_filter.2 ⟨hm w hw1, hw2⟩
+
+private theorem nbrs_wf (g : UG) (v : Nat) (hg : NbrsWF g) :
+    (nbrs g v).Nodup ∧ ∀ w ∈ nbrs g v, w ∈ verts g := by
+  unfold nbrs
+  cases hl : g.lookup v with
+  | none => simp
+  | some ns =>
+    obtain ⟨l1, l2, heq, _⟩ := List.lookup_eq_some_iff.1 hl
+    exact hg (v, ns) (by rw [heq]; simp)
+
+private theorem nbrsWF_eliminate (g : UG) (v : Nat) (hg : NbrsWF g) : NbrsWF (eliminate g v) := by
+  unfold eliminate
+  exact nbrsWF_removeNode _ _ (nbrsWF_makeClique g _ hg (nbrs_wf g v hg).2)
+
+private theorem elimWidth_le_length (order : List Nat) : ∀ (g : UG), NbrsWF g →
+    elimWidth g order ≤ g.length := by
+  induction order with
+  | nil => intro g _; simp [elimWidth]
+  | cons v rest ih =>
+    intro g hg
+    simp only [elimWidth]
+    refine max_le ?_ ?_
+    · obtain ⟨hn, hm⟩ := nbrs_wf g v hg
+      rw [length_eq_verts]
+      exact (List.subperm_of_subset hn hm).length_le
+    · refine le_trans (ih _ (nbrsWF_eliminate g v hg)) ?_
+      rw [length_eq_verts, length_eq_verts, verts_eliminate]
+      exact List.length_filter_le _ _
+
+/-- for graphs as the library builds them, the treewidth is attained -/
+theorem tw_attained_wf (g : UG) (hk : KeysNodup g) (hw : NbrsWF g) :
+    ∃ order : List Nat, order.Perm (verts g) ∧ elimWidth g order = tw g :=
+  tw_attained_partial g hk ⟨verts g, List.Perm.refl _, elimWidth_le_length _ g hw⟩
+
+/-! ### non-vacuity -/
+
+private theorem sortBag_eq (l s : List Nat) (hp : s.Perm l) (hs : s.Pairwise (fun a b => decide (a ≤ b) = true)) :
+    sortBag l = s := by
+  unfold sortBag
+  refine List.Perm.eq_of_pairwise (le := fun a b => decide (a ≤ b) = true) ?_ ?_ hs
+    ((List.mergeSort_perm l _).trans hp.symm)
+  · intro a b _ _ h1 h2
+    simp only [decide_eq_true_eq] at h1 h2
+    omega
+  · exact List.pairwise_mergeSort (le := fun a b => decide (a ≤ b))
+      (by intro a b c h1 h2; simp only [decide_eq_true_eq] at *; omega)
+      (by intro a b; simp only [Bool.or_eq_true, decide_eq_true_eq]; omega) l
+
+example : validTD [(0,[1]),(1,[0,2]),(2,[1]),(3,[])] (fromOrder [(0,[1]),(1,[0,2]),(2,[1]),(3,[])] [0,3,1,2]) = true := by
+  have s1 : sortBag [1, 0] = [0, 1] := sortBag_eq _ _ (by decide) (by decide)
+  have s2 : sortBag [3] = [3] := sortBag_eq _ _ (by decide) (by decide)
+  have s3 : sortBag [2, 1] = [1, 2] := sortBag_eq _ _ (by decide) (by decide)
+  have h : fromOrder [(0,[1]),(1,[0,2]),(2,[1]),(3,[])] [0,3,1,2]
+      = [([1, 2], [[3], [0, 1]]), ([3], [[1, 2]]), ([0, 1], [[1, 2]])] := by
+    simp [fromOrder, fromOrderAux, nbrs, eliminate, makeClique, addEdge, removeNode, insertU,
+      List.lookup, s1, s2, s3, treeAddNode, treeAddEdge, TD.subset]
+  rw [h]
+  decide
+example : tw [(0,[1,3]),(1,[0,2]),(2,[1,3]),(3,[2,0])] = 2 := by decide
+
+end C10
